@@ -73,6 +73,9 @@ func (r *Result) Fault(name string, n int) {
 }
 
 func (r *Result) AddSession(s *SessionResult) {
+	if s.Harness != "" {
+		r.Inconclusive = s.Harness
+	}
 	r.Sessions++
 	r.Steps += s.Stats.Steps
 	r.Bytes += s.Stats.Bytes
@@ -146,6 +149,9 @@ func Execute(t *testing.T, job *Job) *Result {
 	b, _ := json.Marshal(sc)
 	res.Key = fmt.Sprintf("%016x", kernel.Derive(1, string(b)))
 	p.Run(t, sc, job, res)
+	if res.Inconclusive != "" {
+		res.Violation = nil // harness trouble is never reported as a violation
+	}
 	if res.Violation != nil || job.WantTape {
 		// scenario with the recorded schedule made explicit
 		b, _ = json.Marshal(sc)
